@@ -668,6 +668,13 @@ char *macros_expand_params(
     if (ch == '(' && !in_string && !in_ticks) { open_parens++; }
     if (ch == ')' && !in_string && !in_ticks) { open_parens--; }
 
+    // Room for this character, an escaped pair and the terminator.
+    if (ptr >= (int)sizeof(params) - 4 || count >= 254)
+    {
+      print_error(asm_context, "Macro parameters too long");
+      return nullptr;
+    }
+
     params[ptr++] = ch;
   }
 
